@@ -32,11 +32,16 @@ func C01(c *Ctx) {
 		}
 		if ok {
 			content := imp.Args[0].Args[1]
-			ok = content.Kind == "extract" && content.Name == "0" && content.Args[0].IsCallTo("(*"+pGen+"Generator).generateContent")
+			// (the assembling function may have no error result: it only writes into in-memory buffers)
+			ok = (content.Kind == "extract" && content.Name == "0" && content.Args[0].IsCallTo("(*"+pGen+"Generator).generateContent")) ||
+				content.IsCallTo("(*"+pGen+"Generator).generateContent")
 		}
 		r.Check("C01-1", FnKey(g.fn)+":written-bytes", c.Pos(g.write.Pos()), ok, "the written bytes are not gofmt(goimports(assembled content)): "+d.String())
 		dd := c.ReachOf(g.write.Instr)
 		for _, callee := range []string{"(*" + pGen + "Generator).generateContent", "golang.org/x/tools/imports.Process", "go/format.Source"} {
+			if gc := c.P.LookupMethod("/pkg/generator", "Generator", "generateContent"); gc != nil && strings.HasSuffix(callee, "generateContent") && gc.Signature.Results().Len() == 1 {
+				continue // no error result: nothing to fail
+			}
 			r.Check("C01-1", FnKey(g.fn)+":nil-edge:"+shortCallee(callee), c.Pos(g.write.Pos()), dd.Implies(c.M(true, errNotNil(callee))), "the write is reachable although "+callee+" failed; reach: "+dd.Describe(c.O))
 		}
 		for i, ret := range c.successReturns(g.fn) {
